@@ -144,6 +144,15 @@ def run(tier, seed):
                     raise vlib.ToolError(f"arity of std.{c['fn']} differs: spec {len(c['args'])}, implementation {impl_tab.get(c['fn'])}")
                 src = f"std.{c['fn']}({', '.join(c['args'])})"
                 inputs.append(("std:" + c["fn"], {"k": "eval", "src": src, "max_stack": 200}))
+    # ill-scoped and well-scoped programs of the static-analysis universe (spec/MC_Static.tla, shared with C09):
+    # here only the outcome protocol is decided (a diagnosed error or a value, never a crash)
+    from checks import c09
+    for depth, sample in ((1, 0), (2, 3000 if tier == "quick" else 0)):
+        res = run_tlc("MC_Static", c09.cfg(depth, sample), f"c01_static_d{depth}", workers=8, seed=seed, timeout=3000, coverage=False)
+        tlc_must_pass(res, f"Static depth {depth}")
+        chk.add_tlc(res, f"universe scope: contexts x fillers at depth {depth} (sample={sample})")
+        for src in sorted({c["src"] for c in res.lines("CASE")}):
+            inputs.append(("scope", {"k": "eval", "src": src, "max_stack": 100}))
     nmut = 3000 if tier == "quick" else 100000
     res = run_tlc("MC_Pipeline", cfg("mut", 0, False, len(files)), "c01_mut", workers=1, seed=seed, depth=4,
                   env={"NCASES": str(nmut)}, timeout=3000, coverage=False, extra=["-simulate"])
